@@ -7,13 +7,14 @@ with the previous round's results (title line of notes.md + files touched). Noth
 import os, re, sys, glob
 src, dst, word = sys.argv[1:4]
 FOCUS = {
+ 'e': "This time aim at the INTERPLAY of two features that are documented separately and at the public helper APIs that both derived code and hand-written macros call: e.g. flatten x container / field defaults, rename_all x rename, forward_attrs x attributes, with x map / and_then, Option / Vec / Result wrappers x defaults and absence, generic receivers x skip / flatten, nested receivers x allow_unknown_fields; constructors, accessors, conversions and trait impls (Display, Debug, PartialEq, Hash, IntoIterator, From, Deref, AsRef, ToTokens) of darling::util, darling::ast, darling::usage and darling::Error. Prefer changes that leave the common case alone and alter behaviour only for boundary sizes (0, 1 or 2 elements), for the SECOND occurrence of something, for inputs in which two names / paths / spans coincide, or for one of two code paths that should agree (from_meta vs from_list vs from_nested_meta; struct vs struct-variant; derive-time check vs generated code).",
  'd': "This time aim at the parts of the statement and quantifier that are LEAST likely to have been exercised so far: rarely used options and traits (FromTypeParam, FromGenerics/FromGenericParam, FromAttributes, `and_then`, `from_none`, `from_word`, `rename_all` variants, `multiple` on non-Vec collections, `with` closures), builds with the `suggestions` feature off, less-visited files among the anchors and the helpers they call, wrong VALUES or wrong MESSAGES / PATHS / SPANS rather than crashes, and off-by-one or ordering slips that only show with 3+ elements or at a specific nesting depth. A change whose effect is visible only in one position of a longer input (first/middle/last) or only for one of several equivalent spellings is ideal.",
 }
 for pf in sorted(glob.glob(f'/tmp/seed_out/C??{src}.prompt.txt')):
     pid = os.path.basename(pf)[:3]
     t = open(pf).read()
     t = t.replace(f'{pid}{src}', f'{pid}{dst}')
-    t = re.sub(r'this is a THIRD round', f'this is a {word} round', t)
+    t = re.sub(r'this is a [A-Z]+ round', f'this is a {word} round', t)
     # extend the list of earlier changes
     extra = []
     for d in sorted(glob.glob(f'/verif/seeded/{pid}{src}-*')):
@@ -28,6 +29,6 @@ for pf in sorted(glob.glob(f'/tmp/seed_out/C??{src}.prompt.txt')):
     lines[last+1:last+1] = extra
     t = '\n'.join(lines)
     # replace the focus sentence
-    t = re.sub(r'This time aim specifically for changes where TWO sites.*?would expose\.', FOCUS[dst], t, flags=re.S)
+    t = re.sub(r'(do NOT repeat them or close variants\. ).*?(\n\n- )', lambda m: m.group(1) + FOCUS[dst] + m.group(2), t, count=1, flags=re.S)
     open(f'/tmp/seed_out/{pid}{dst}.prompt.txt', 'w').write(t)
     print(pid, len(extra), 'earlier changes appended')
